@@ -102,6 +102,9 @@ def frag(kind):
                 spec.goal_state(position=["circle", 2.0, 18.0, 1.0]),
                 spec.goal_state(position=["poly", [[14.0, 0.0], [18.0, 0.0], [18.0, 3.0], [14.0, 2.0]]], orientation=["aiv", 2.5, 4.5]),
                 spec.goal_state(position=["group", [["rect", 2.0, 2.0, 12.0, 1.0, 0.0], ["circle", 1.0, 13.5, 2.0]]])]))
+            # two more planning problems whose goal regions are EQUAL to each other (separate objects), as in a cooperative set
+            for pid in (102, 103):
+                sp["pps"].append(spec.pp(pid, x=6.0, y=1.0, o=0.2, goal_states=[spec.goal_state(position=["rect", 3.0, 2.0, 17.0, 1.5, 0.25], orientation=["aiv", -0.25, 0.75])]))
         elif kind in ("base", "shared-boundary-array"):
             pass
         else:
@@ -332,6 +335,28 @@ def check_leaf(name, t, a, atype, res):
         bad = True
     if bad:
         return
+    # a shape is a point set: a probe point p belongs to the original exactly when R(a)(p + t) belongs to the moved shape (whatever the moved shape
+    # caches internally must describe the same set as its vertices / centre / radius)
+    if hasattr(o1, "contains_point") and s0.get("k") in ("rect", "circle", "poly", "group"):
+        import numpy as np
+        from mc.checks.c08 import probe_points, shape_contains
+        from mc.checks.c11 import snap_to_spec
+        sp0 = snap_to_spec(s0)
+        tup = lambda x: tuple(tup(y) for y in x) if isinstance(x, list) else x
+        c_, s_ = math.cos(float(a)), math.sin(float(a))
+        for px, py in probe_points(tup(sp0) if sp0[0] != "group" else ("group", [tup(m) for m in sp0[1]])):
+            inside = shape_contains(tup(sp0) if sp0[0] != "group" else ("group", [tup(m) for m in sp0[1]]), (px, py))
+            if inside is None:
+                continue
+            qx, qy = c_ * (px + t[0]) - s_ * (py + t[1]), s_ * (px + t[0]) + c_ * (py + t[1])
+            try:
+                got = bool(o1.contains_point(np.array([qx, qy])))
+            except Exception as e:
+                res.violation(f"C05|{name}.translate_rotate|angle-class:{angle_class(a)}|contains_point-raises:{type(e).__name__}", f"{case}: {e!r}", case)
+                return
+            if got != inside:
+                res.violation(f"C05|{name}.translate_rotate|angle-class:{angle_class(a)}|moved-shape-is-another-point-set", f"{case}: probe ({px},{py}) -> ({qx},{qy}): original {inside}, moved {got}", case)
+                return
     try:
         o2 = app(o1, (0.0, 0.0), -ang)
         o2 = app(o2, (-t[0], -t[1]), 0.0)
